@@ -322,7 +322,7 @@ def c_cases(ctx):
                 out.append((f"copy {hx(dst)} {d_off} {n} {hx(src)} {s_off}", "exh"))
     nexh = len(out)
     # random larger cases
-    nrand = 20000 if ctx.quick else 150000
+    nrand = 20000 if ctx.quick else 400000
     ops = getters + ["setu", "seti", "getbits", "copy", "setbit", "getbit"]
     for _ in range(nrand):
         op = rng.choice(ops)
@@ -402,7 +402,7 @@ def cpp_cases(ctx):
                 ask = n + (5 if (s_off + n) % 3 == 0 and slack == 0 and (s_off + n) % 8 == 0 else 0)
                 out.append((f"x.copy {hx(dst)} {d_off} {hx(src)} {s_off} {ask}", "exh"))
     nexh = len(out)
-    nrand = 15000 if ctx.quick else 120000
+    nrand = 15000 if ctx.quick else 300000
     ops = getters + ["x.setu", "x.seti", "x.getbits", "x.copy", "x.setbit", "x.getbit", "x.setzeros", "x.setzeros", "x.pad", "x.subspan"]
     for _ in range(nrand):
         op = rng.choice(ops)
@@ -758,7 +758,7 @@ def py_cases(ctx):
         for v in (0, 1, (1 << n) - 1, 1 << (n - 1), rng.getrandbits(n + 3)):
             out.append((f"p.u2b {v} {n}", "exh"))
     nexh = len(out)
-    nrand = 6000 if ctx.quick else 60000
+    nrand = 6000 if ctx.quick else 150000
     for _ in range(nrand):
         size = rng.choice([0, 1, 2, 3, 8, 9, 17, 40])
         off = rng.choice([rng.randrange(0, size * 8 + 12), rng.randrange(0, 400), size * 8])
@@ -930,11 +930,16 @@ def load_corpus(section):
 
 
 def run(ctx: common.Ctx):
-    mods = ["C14"]
-    if (common.LEAN / "NunavutVerif" / "Properties" / "C14Float.lean").exists():
-        mods.append("C14Float")
-    has_float = "C14Float" in mods
-    drivers = ctx.prove(mods, exes=["bits"] + (["float16"] if has_float else []))
+    # the half-float part (other files, same check): its theorems are built and audited together with ours
+    try:
+        from . import c14_float
+    except ImportError:
+        c14_float = None
+    mods, exes = ["C14"], ["bits"]
+    if c14_float is not None and (common.LEAN / "NunavutVerif" / "Properties" / "C14Float.lean").exists():
+        mods += [m for m in getattr(c14_float, "PROPERTY_MODULES", ["C14Float"]) if m not in mods]
+        exes += [e for e in getattr(c14_float, "EXES", ["float16"]) if e not in exes]
+    drivers = ctx.prove(mods, exes=exes)
     ctx.c14_drivers = drivers
     drv = drivers.get("bits")
     ctx.rule = ("exhaustive: bit offsets x bit lengths x buffer sizes x 3 content patterns (zeros / ones / random) for every getter, setter "
@@ -952,10 +957,6 @@ def run(ctx: common.Ctx):
     run_c(ctx, drv)
     run_cpp(ctx, drv)
     run_py(ctx, drv)
-    try:
-        from . import c14_float
-    except ImportError:
-        c14_float = None
     if c14_float is not None and os.environ.get("VERIF_C14_SKIP_FLOAT") != "1":   # (development switch)
         c14_float.run_float(ctx, drivers)
 
